@@ -1,256 +1,87 @@
-(** Proofs about Model/History.v (C18). *)
+(** Proofs about Model/History.v (C18, code as repaired by b952f8c). *)
 From Coq Require Import ZArith Lia.
 From Cicada Require Import Base.Chars Model.History.
 Local Open Scope N_scope.
 
-Definition no_sq_head (rest : str) : Prop := match rest with c :: _ => c <> c_sq | [] => True end.
-
-(** Round trip of the quote-doubling encoding, for every text without code
-    point 0 and every continuation that does not start with a quote. *)
-Lemma lex_quote_body : forall line rest,
-  has_nul line = false -> no_sq_head rest ->
-  lex_body (quote_body line ++ c_sq :: rest) = Some (line, rest).
-Proof.
-  induction line as [|c line IH]; intros rest Hn Hr.
-  - cbn. destruct rest as [|d rest]; [reflexivity|].
-    cbn in Hr. apply N.eqb_neq in Hr. unfold c_sq in *. rewrite Hr. reflexivity.
-  - cbn in Hn. apply orb_false_iff in Hn as [Hc Hn].
-    cbn [quote_body]. destruct (c =? c_sq) eqn:E.
-    + apply N.eqb_eq in E. subst c. cbn. rewrite (IH rest Hn Hr). reflexivity.
-    + cbn [app lex_body]. rewrite Hc, E. rewrite (IH rest Hn Hr). reflexivity.
-Qed.
-
-Lemma lex_literal_quote : forall line rest,
-  has_nul line = false -> no_sq_head rest ->
-  lex_literal (c_sq :: quote_body line ++ c_sq :: rest) = Some (line, rest).
-Proof. intros. cbn. now apply lex_quote_body. Qed.
-
-(* ------------------------------------------------------------------ literal: exact class *)
-Lemma quote_body_id : forall x, has_sq x = false -> quote_body x = x.
-Proof.
-  induction x as [|c x IH]; intro H; [reflexivity|].
-  cbn in H. apply orb_false_iff in H as [Hc Hx]. cbn. rewrite Hc. f_equal. now apply IH.
-Qed.
-
-Lemma lex_body_plain : forall x rest,
-  has_sq x = false -> has_nul x = false -> no_sq_head rest ->
-  lex_body (x ++ c_sq :: rest) = Some (x, rest).
-Proof. intros x rest Hs Hn Hr. rewrite <- (quote_body_id x Hs) at 1. now apply lex_quote_body. Qed.
-
-(** Length accounting of the lexer: every quote in the value costs two input
-    characters, the closing quote one. *)
-Lemma lex_body_len : forall n s v r, (length s <= n)%nat ->
-  lex_body s = Some (v, r) -> length s = (length v + count_sq v + 1 + length r)%nat.
-Proof.
-  induction n as [|n IH]; intros s v r Hl H.
-  - destruct s; [discriminate|cbn in Hl; lia].
-  - destruct s as [|c s]; [discriminate|]. cbn [lex_body] in H.
-    destruct (c =? 0) eqn:E0; [discriminate|].
-    destruct (c =? c_sq) eqn:Eq.
-    + destruct s as [|c2 s2].
-      * injection H as <- <-. reflexivity.
-      * destruct (c2 =? c_sq) eqn:E2.
-        -- destruct (lex_body s2) as [[v' r']|] eqn:L; [|discriminate]. injection H as <- <-.
-           apply IH in L; [|cbn in Hl; lia]. cbn [length count_sq]. rewrite N.eqb_refl. cbn [length]. lia.
-        -- injection H as <- <-. cbn. lia.
-    + destruct (lex_body s) as [[v' r']|] eqn:L; [|discriminate]. injection H as <- <-.
-      apply IH in L; [|cbn in Hl; lia]. cbn [length count_sq]. rewrite Eq. lia.
-Qed.
-
-Lemma count_sq_0 : forall x, count_sq x = O -> has_sq x = false.
-Proof.
-  induction x as [|c x IH]; intro H; [reflexivity|]. cbn in *.
-  destruct (c =? c_sq); [discriminate|]. now apply IH.
-Qed.
-
-Lemma literal_raw_iff : forall x rest,
-  has_nul x = false -> no_sq_head rest ->
-  (lex_literal (c_sq :: x ++ c_sq :: rest) = Some (x, rest) <-> has_sq x = false).
-Proof.
-  intros x rest Hn Hr. split.
-  - intro H. cbn in H. apply (lex_body_len _ _ _ _ (le_n _)) in H.
-    rewrite app_length in H. cbn [length] in H. apply count_sq_0. lia.
-  - intro Hs. cbn. now apply lex_body_plain.
-Qed.
-
-(* ------------------------------------------------------------------ the INSERT recogniser *)
+(* ------------------------------------------------------------------ the INSERT: template + bound parameters *)
 Lemma strip_prefix_app : forall p r, strip_prefix p (p ++ r) = Some r.
 Proof. induction p as [|a p IH]; intro r; cbn; [reflexivity|]. rewrite N.eqb_refl. apply IH. Qed.
 
-Definition num_head_ok (r : str) : Prop := match r with c :: _ => is_numch c = false | [] => True end.
+(** The statement text is a function of the table name alone. *)
+Lemma insert_text_const : forall table line status tsb tse session dir,
+  fst (insert_stmt table line status tsb tse session dir) = insert_template table.
+Proof. reflexivity. Qed.
 
-Lemma take_num_app : forall n r, forallb is_numch n = true -> num_head_ok r -> take_num (n ++ r) = (n, r).
-Proof.
-  induction n as [|c n IH]; intros r Hn Hr.
-  - cbn. destruct r as [|d r]; [reflexivity|]. cbn in Hr. cbn. rewrite Hr. reflexivity.
-  - cbn in Hn. apply andb_true_iff in Hn as [Hc Hn]. cbn [app take_num]. rewrite Hc, (IH r Hn Hr). reflexivity.
-Qed.
-
-Lemma numch_not_sq : forall c, is_numch c = true -> c =? c_sq = false.
-Proof. intros c H. destruct (c =? c_sq) eqn:E; [|reflexivity]. apply N.eqb_eq in E. subst c. discriminate H. Qed.
-
-Lemma numch_not_space : forall c, is_numch c = true -> c =? c_space = false.
-Proof. intros c H. destruct (c =? c_space) eqn:E; [|reflexivity]. apply N.eqb_eq in E. subst c. discriminate H. Qed.
-
-Definition numeral (n : str) : Prop := n <> [] /\ forallb is_numch n = true.
-
-Lemma parse_value_num : forall n r, numeral n -> num_head_ok r ->
-  parse_value (skip_sp (c_space :: n ++ r)) = Some (VNum n, r).
-Proof.
-  intros n r [Hne Hn] Hr. destruct n as [|c n]; [contradiction|].
-  pose proof Hn as Hn'. cbn in Hn'. apply andb_true_iff in Hn' as [Hc _].
-  cbn [skip_sp app]. rewrite N.eqb_refl. cbn [skip_sp]. rewrite (numch_not_space c Hc).
-  cbn [parse_value]. rewrite (numch_not_sq c Hc).
-  change (c :: n ++ r) with ((c :: n) ++ r). rewrite (take_num_app (c :: n) r Hn Hr). reflexivity.
-Qed.
-
-Lemma parse_value_str : forall x r, has_sq x = false -> has_nul x = false -> no_sq_head r ->
-  parse_value (c_sq :: x ++ c_sq :: r) = Some (VStr x, r).
-Proof. intros. cbn [parse_value]. rewrite N.eqb_refl. rewrite lex_body_plain; auto. Qed.
-
-Lemma parse_value_quoted : forall l r, has_nul l = false -> no_sq_head r ->
-  parse_value (c_sq :: quote_body l ++ c_sq :: r) = Some (VStr l, r).
-Proof. intros. cbn [parse_value]. rewrite N.eqb_refl. rewrite lex_quote_body; auto. Qed.
-
-Lemma parse_values_mono : forall f s x, parse_values f s = Some x ->
-  forall f', (f <= f')%nat -> parse_values f' s = Some x.
-Proof.
-  induction f as [|f IH]; intros s x H f' Hle; [discriminate|].
-  destruct f' as [|f']; [lia|]. cbn [parse_values] in *.
-  destruct (parse_value (skip_sp s)) as [[v r]|]; [|discriminate].
-  destruct (skip_sp r) as [|c r']; [discriminate|].
-  destruct (c =? c_comma).
-  - destruct (parse_values f r') as [[vs r'']|] eqn:E; [|discriminate].
-    rewrite (IH r' _ E f'); [exact H|lia].
-  - exact H.
-Qed.
-
-(** Normal form of the INSERT text: fixed characters as conses. *)
-Definition insert_tail (line status tsb tse session dir : str) : str :=
-  c_sq :: quote_body (trim line) ++ c_sq :: c_comma :: c_space :: status ++ c_comma :: c_space :: tsb ++
-  c_comma :: c_space :: tse ++ c_comma :: c_space :: c_sq :: session ++ c_sq :: c_comma :: c_space ::
-  c_sq :: (s_dir ++ dir ++ s_bar) ++ c_sq :: c_rp :: c_semi :: [].
-
-Lemma insert_sql_nf : forall table line status tsb tse session dir,
-  insert_sql table line status tsb tse session dir =
-  s_insert_into ++ table ++ s_cols_values ++ c_lp :: insert_tail line status tsb tse session dir.
-Proof.
-  intros. unfold insert_sql, insert_tail, s_comma_sp. cbn [app].
-  repeat (rewrite <- ?app_assoc; cbn [app]). reflexivity.
-Qed.
-
-Lemma has_sq_app a b : has_sq (a ++ b) = has_sq a || has_sq b.
-Proof. unfold has_sq. apply existsb_app. Qed.
-Lemma has_nul_app a b : has_nul (a ++ b) = has_nul a || has_nul b.
-Proof. unfold has_nul. apply existsb_app. Qed.
-
-Lemma has_nul_trim_start : forall l, has_nul l = false -> has_nul (trim_start l) = false.
-Proof.
-  induction l as [|c l IH]; intro H; [reflexivity|]. cbn [trim_start].
-  destruct (is_ws c); [|exact H]. apply IH. cbn in H. now apply orb_false_iff in H as [_ H].
-Qed.
-Lemma has_nul_rev : forall l, has_nul (rev l) = has_nul l.
-Proof.
-  induction l as [|c l IH]; [reflexivity|]. cbn [rev]. rewrite has_nul_app, IH.
-  unfold has_nul at 2 3. cbn [existsb]. fold (has_nul l).
-  destruct (c =? 0), (has_nul l); reflexivity.
-Qed.
-Lemma has_nul_trim : forall l, has_nul l = false -> has_nul (trim l) = false.
-Proof.
-  intros l H. unfold trim, trim_end. rewrite has_nul_rev. apply has_nul_trim_start.
-  rewrite has_nul_rev. now apply has_nul_trim_start.
-Qed.
-
-Lemma values_of_insert_tail : forall line status tsb tse session dir,
-  has_nul line = false -> numeral status -> numeral tsb -> numeral tse ->
-  has_sq session = false -> has_nul session = false -> has_sq dir = false -> has_nul dir = false ->
-  parse_values 6 (insert_tail line status tsb tse session dir) =
-  Some (intended_row line status tsb tse session dir, [c_semi]).
-Proof.
-  intros line status tsb tse session dir Hl Hs Hb He Hss Hsn Hds Hdn.
-  unfold insert_tail, intended_row.
-  assert (Hinfo_s : has_sq (s_dir ++ dir ++ s_bar) = false)
-    by (rewrite !has_sq_app, Hds; reflexivity).
-  assert (Hinfo_n : has_nul (s_dir ++ dir ++ s_bar) = false)
-    by (rewrite !has_nul_app, Hdn; reflexivity).
-  (* value 1: the quoted line *)
-  cbn [parse_values]. cbn [skip_sp]. change (c_sq =? c_space) with false. cbv iota.
-  rewrite parse_value_quoted; [|now apply has_nul_trim| cbn; discriminate].
-  cbn [skip_sp]. change (c_comma =? c_space) with false. cbv iota. rewrite N.eqb_refl.
-  (* value 2..4: numerals *)
-  rewrite parse_value_num; [|assumption|reflexivity].
-  cbn [skip_sp]. change (c_comma =? c_space) with false. cbv iota. rewrite N.eqb_refl.
-  rewrite parse_value_num; [|assumption|reflexivity].
-  cbn [skip_sp]. change (c_comma =? c_space) with false. cbv iota. rewrite N.eqb_refl.
-  rewrite parse_value_num; [|assumption|reflexivity].
-  cbn [skip_sp]. change (c_comma =? c_space) with false. cbv iota. rewrite N.eqb_refl.
-  (* value 5: session *)
-  cbn [skip_sp]. rewrite N.eqb_refl. cbn [skip_sp]. change (c_sq =? c_space) with false. cbv iota.
-  rewrite parse_value_str; [|assumption|assumption|cbn; discriminate].
-  cbn [skip_sp]. change (c_comma =? c_space) with false. cbv iota. rewrite N.eqb_refl.
-  (* value 6: info *)
-  cbn [skip_sp]. rewrite N.eqb_refl. cbn [skip_sp]. change (c_sq =? c_space) with false. cbv iota.
-  rewrite parse_value_str; [|assumption|assumption|cbn; discriminate].
-  cbn [skip_sp]. change (c_rp =? c_space) with false. cbv iota.
-  change (c_rp =? c_comma) with false. cbv iota. rewrite N.eqb_refl. reflexivity.
-Qed.
-
-Record wf_args (line status tsb tse session dir : str) : Prop := mkwf {
-  wf_line : has_nul line = false; wf_status : numeral status; wf_tsb : numeral tsb; wf_tse : numeral tse;
-  wf_session : has_nul session = false; wf_dir : has_nul dir = false }.
-
-Definition insert_exact (table line status tsb tse session dir : str) : Prop :=
-  parse_insert table (insert_sql table line status tsb tse session dir) =
+(** The rows stored are exactly the one intended row: for EVERY line, session id and directory name. *)
+Theorem insert_exact : forall table line status tsb tse session dir,
+  insert_rows table (insert_stmt table line status tsb tse session dir) =
   Some [intended_row line status tsb tse session dir].
-
-Lemma insert_tail_len : forall line status tsb tse session dir,
-  (6 <= length (insert_tail line status tsb tse session dir))%nat.
-Proof. intros. unfold insert_tail. cbn [length]. repeat (rewrite app_length; cbn [length]). lia. Qed.
-
-Theorem insert_ok : forall table line status tsb tse session dir,
-  wf_args line status tsb tse session dir ->
-  has_sq session = false -> has_sq dir = false ->
-  insert_exact table line status tsb tse session dir.
 Proof.
-  intros table line status tsb tse session dir [Hl Hs Hb He Hsn Hdn] Hss Hds.
-  unfold insert_exact, parse_insert. rewrite insert_sql_nf.
+  intros. unfold insert_rows, insert_stmt, insert_template.
   rewrite strip_prefix_app. cbn [bind]. rewrite strip_prefix_app. cbn [bind].
-  rewrite strip_prefix_app. cbn [bind].
-  cbn [parse_tuples skip_sp]. change (c_lp =? c_space) with false. cbv iota. rewrite N.eqb_refl.
-  rewrite (parse_values_mono 6 _ _ (values_of_insert_tail line status tsb tse session dir Hl Hs Hb He Hss Hsn Hds Hdn));
-    [|apply insert_tail_len].
-  cbn [skip_sp]. change (c_semi =? c_space) with false. cbv iota. rewrite N.eqb_refl.
-  cbn [bind]. reflexivity.
+  rewrite strip_prefix_app. cbn [bind]. reflexivity.
 Qed.
 
-(* ------------------------------------------------------------------ refutations (witnesses) *)
-Definition w_table : str := [99;105;99;97;100;97;95;104;105;115;116;111;114;121].      (* cicada_history *)
-Definition w_line : str := [108;115].                                                  (* ls *)
-Definition w_num0 : str := [48].
-Definition w_num1 : str := [49].
-Definition w_sess : str := [115;49].                                                   (* s1 *)
-Definition w_dir_quote : str := [47;116;109;112;47;105;116;39;115].                    (* /tmp/it's *)
-(* /w/x|'), ('pwn', 0, 0, 0, 's', 'dir:y *)
-Definition w_dir_inject : str :=
-  [47;119;47;120;124;39;41;44;32;40;39;112;119;110;39;44;32;48;44;32;48;44;32;48;44;32;39;115;39;44;32;39;100;105;114;58;121].
-Definition w_pat_quote : str := [105;116;39].                                          (* it' *)
+(* ------------------------------------------------------------------ the SELECT: template + bound parameters *)
+Lemma count_char_app : forall k a b, count_char k (a ++ b) = (count_char k a + count_char k b)%nat.
+Proof. induction a as [|c a IH]; intro b; cbn; [reflexivity|]. destruct (c =? k); rewrite IH; reflexivity. Qed.
 
-Lemma w_wf_quote : wf_args w_line w_num0 w_num0 w_num1 w_sess w_dir_quote.
-Proof. split; try reflexivity; (split; [discriminate|reflexivity]). Qed.
-Lemma w_wf_inject : wf_args w_line w_num0 w_num0 w_num1 w_sess w_dir_inject.
-Proof. split; try reflexivity; (split; [discriminate|reflexivity]). Qed.
+Lemma select_text_indep : forall table p1 s1 d1 p2 s2 d2 o lim,
+  is_empty p1 = is_empty p2 ->
+  fst (select_stmt table p1 s1 d1 o lim) = fst (select_stmt table p2 s2 d2 o lim).
+Proof.
+  intros table p1 s1 d1 p2 s2 d2 o lim E. unfold select_stmt, select_clauses. cbn [fst]. rewrite E.
+  destruct (is_empty p2), (o_session o), (o_pwd o); reflexivity.
+Qed.
 
-(** A directory name with a quote: the text is not an INSERT of the intended row. *)
-Lemma dir_quote_not_exact : parse_insert w_table (insert_sql w_table w_line w_num0 w_num0 w_num1 w_sess w_dir_quote) = None.
-Proof. vm_compute. reflexivity. Qed.
+Lemma select_params_spec : forall table p s d o lim,
+  snd (select_stmt table p s d o lim) =
+  (if is_empty p then [] else [wrap_pct p]) ++ (if o_session o then [s] else []) ++
+  (if o_pwd o then [wrap_pct (pwd_inner d)] else []).
+Proof.
+  intros. unfold select_stmt, select_clauses. cbn [snd].
+  destruct (is_empty p), (o_session o), (o_pwd o); reflexivity.
+Qed.
 
-(** A crafted directory name: the text is a well-formed INSERT of TWO rows, the
-    second of which (text pwn) was never submitted. *)
-Lemma dir_injection :
-  parse_insert w_table (insert_sql w_table w_line w_num0 w_num0 w_num1 w_sess w_dir_inject) =
-  Some [ [VStr w_line; VNum w_num0; VNum w_num0; VNum w_num1; VStr w_sess; VStr [100;105;114;58;47;119;47;120;124]];
-         [VStr [112;119;110]; VNum w_num0; VNum w_num0; VNum w_num0; VStr [115]; VStr [100;105;114;58;121;124]] ].
-Proof. vm_compute. reflexivity. Qed.
+(** as many placeholders as bound values, in the order of the clauses *)
+Lemma select_arity : forall table p s d o lim,
+  count_char c_qm table = O -> count_char c_qm lim = O ->
+  count_char c_qm (fst (select_stmt table p s d o lim)) = length (snd (select_stmt table p s d o lim)).
+Proof.
+  intros table p s d o lim Ht Hl. unfold select_stmt, select_clauses. cbn [fst snd].
+  rewrite !count_char_app, Ht, Hl.
+  destruct (is_empty p), (o_session o), (o_pwd o), (o_asc o); reflexivity.
+Qed.
+
+Lemma row_matches_spec : forall p s d o r,
+  row_matches p s d o r =
+  (is_empty p || like (wrap_pct p) (r_inp r)) &&
+  (negb (o_session o) || str_eqb (r_session r) s) &&
+  (negb (o_pwd o) || like (wrap_pct (pwd_inner d)) (r_info r)).
+Proof.
+  intros. unfold row_matches, select_clauses.
+  destruct (is_empty p), (o_session o), (o_pwd o); cbn [app forallb clause_holds negb orb andb];
+    rewrite ?andb_true_r, ?andb_assoc; reflexivity.
+Qed.
+
+(* ------------------------------------------------------------------ the DELETE: a number is the only pasted value *)
+Lemma has_char_app k a b : has_char k (a ++ b) = has_char k a || has_char k b.
+Proof. unfold has_char. apply existsb_app. Qed.
+
+Lemma digits_no_char : forall k n, is_digit k = false -> forallb is_digit n = true -> has_char k n = false.
+Proof.
+  induction n as [|c n IH]; intros Hk Hn; [reflexivity|]. cbn in Hn. apply andb_true_iff in Hn as [Hc Hn].
+  unfold has_char. cbn [existsb]. fold (has_char k n). rewrite (IH Hk Hn), orb_false_r.
+  destruct (c =? k) eqn:E; [|reflexivity]. apply N.eqb_eq in E. subst c. congruence.
+Qed.
+
+Lemma delete_sql_plain : forall table n k, is_digit k = false -> has_char k table = false ->
+  has_char k (s_delete ++ s_where_rowid) = false -> forallb is_digit n = true ->
+  has_char k (delete_sql table n) = false.
+Proof.
+  intros table n k Hk Ht Hf Hn. unfold delete_sql. rewrite !has_char_app in *.
+  rewrite Ht, (digits_no_char k n Hk Hn). apply orb_false_iff in Hf as [-> ->]. reflexivity.
+Qed.
 
 (* ------------------------------------------------------------------ table *)
 Lemma db_delete_exact : forall rows n r, In r (db_delete rows n) <-> In r rows /\ r_id r <> n.
@@ -258,19 +89,6 @@ Proof.
   intros rows n r. unfold db_delete. rewrite filter_In. split; intros [H1 H2]; split; auto.
   - apply negb_true_iff, N.eqb_neq in H2. exact H2.
   - apply negb_true_iff, N.eqb_neq. exact H2.
-Qed.
-
-Lemma digits_no_sq : forall n, forallb is_digit n = true -> has_sq n = false.
-Proof.
-  induction n as [|c n IH]; intro Hn; [reflexivity|]. cbn in Hn. apply andb_true_iff in Hn as [Hc Hn].
-  unfold has_sq. cbn [existsb]. fold (has_sq n). rewrite (IH Hn), orb_false_r.
-  destruct (c =? c_sq) eqn:E; [|reflexivity]. apply N.eqb_eq in E. subst c. discriminate Hc.
-Qed.
-
-Lemma delete_sql_no_quote : forall table n, has_sq table = false -> forallb is_digit n = true ->
-  has_sq (delete_sql table n) = false.
-Proof.
-  intros table n Ht Hn. unfold delete_sql. rewrite !has_sq_app, Ht, (digits_no_sq n Hn). reflexivity.
 Qed.
 
 Lemma next_id_fresh : forall rows r, In r rows -> r_id r < next_id rows.
@@ -412,25 +230,3 @@ Proof.
   exfalso. apply Hb. reflexivity.
 Qed.
 
-(* ------------------------------------------------------------------ the LIKE literal of the SELECT *)
-Lemma like_lit_nf : forall p rest, like_lit p ++ rest = c_sq :: wrap_pct p ++ c_sq :: rest.
-Proof. intros. unfold like_lit, wrap_pct. cbn [app]. repeat (rewrite <- ?app_assoc; cbn [app]). reflexivity. Qed.
-
-Lemma has_sq_wrap p : has_sq (wrap_pct p) = has_sq p.
-Proof. unfold wrap_pct. rewrite !has_sq_app. cbn. now rewrite orb_false_r. Qed.
-Lemma has_nul_wrap p : has_nul (wrap_pct p) = has_nul p.
-Proof. unfold wrap_pct. rewrite !has_nul_app. cbn. now rewrite orb_false_r. Qed.
-
-Lemma like_lit_iff : forall p rest, has_nul p = false -> no_sq_head rest ->
-  (lex_literal (like_lit p ++ rest) = Some (wrap_pct p, rest) <-> has_sq p = false).
-Proof.
-  intros p rest Hn Hr. rewrite like_lit_nf. rewrite <- (has_sq_wrap p).
-  apply literal_raw_iff; [now rewrite has_nul_wrap|assumption].
-Qed.
-
-Lemma not_full : ~ (forall table line status tsb tse session dir,
-  wf_args line status tsb tse session dir -> insert_exact table line status tsb tse session dir).
-Proof.
-  intro H. specialize (H w_table _ _ _ _ _ _ w_wf_quote). unfold insert_exact in H.
-  rewrite dir_quote_not_exact in H. discriminate.
-Qed.
